@@ -279,7 +279,8 @@ fn run_generate(
         analyzer.get_discovered_events(),
         discovered_structs,
         &config,
-    )?;
+    )?
+    .with_generated_files(&generated_files);
     if let Err(e) = cache.save(&config.output_path) {
         eprintln!("Warning: Failed to save generation cache: {}", e);
     }
